@@ -119,6 +119,72 @@ fn gdb_stacks() -> Vec<String> {
     res
 }
 
+/// What the event log says about the stuck scenario: open client operations and the two history
+/// conditions that the known iterator findings require.
+#[cfg(not(miri))]
+fn stuck_history() -> J {
+    let log = match CURRENT.lock().unwrap().clone() {
+        Some(l) => l,
+        None => return J::Null,
+    };
+    let (evs, names) = log.merged();
+    let mut open: Vec<String> = Vec::new();
+    let mut first_shutdown = u64::MAX;
+    let mut early_drop_open = false;
+    let mut early_drop_done = false;
+    let mut iter_after_shutdown = false;
+    let mut late_iters: Vec<u32> = Vec::new();
+    let mut open_next_late = false;
+    let mut other_open = 0u64;
+    let pair = |k: K| match k {
+        K::DInv => Some(K::DRet),
+        K::StopInv => Some(K::StopRet),
+        K::AddInv => Some(K::AddRet),
+        K::UInv => Some(K::URet),
+        K::ItInv => Some(K::ItNext),
+        K::ItDropInv => Some(K::ItDropRet),
+        K::GInv => Some(K::GRet),
+        K::MetInv => Some(K::MetRet),
+        K::TInv => Some(K::TRet),
+        _ => None,
+    };
+    for (i, e) in evs.iter().enumerate() {
+        if e.k == K::StopInv {
+            first_shutdown = first_shutdown.min(e.seq);
+        }
+        if e.k == K::AddRet && e.r == 2 && e.x == 3 && e.seq > first_shutdown {
+            iter_after_shutdown = true;
+            late_iters.push(e.idx);
+        }
+        if e.k == K::ItDropInv && e.r == 1 {
+            early_drop_done = true;
+        }
+        if let Some(rk) = pair(e.k) {
+            let closed = evs[i + 1..].iter().any(|x| x.tid == e.tid && x.k == rk);
+            if !closed {
+                open.push(format!("t{} '{}' {} a={} idx={} (seq {})", e.tid, names.get(e.tid as usize).cloned().unwrap_or_default(), e.k.name(), crate::script::id_str(e.a), e.idx, e.seq));
+                if e.k == K::ItDropInv && e.r == 1 {
+                    early_drop_open = true;
+                } else if e.k == K::ItInv && late_iters.contains(&e.idx) {
+                    open_next_late = true;
+                } else {
+                    other_open += 1;
+                }
+            }
+        }
+    }
+    let tail: Vec<J> = evs.iter().rev().take(60).rev().map(|e| J::s(format!("{} t{} {} a={} idx={} r={}", e.seq, e.tid, e.k.name(), crate::script::id_str(e.a), e.idx, e.r))).collect();
+    J::obj(vec![
+        ("open_calls", J::A(open.into_iter().map(J::S).collect())),
+        ("iterator_dropped_before_end_of_stream", J::B(early_drop_done)),
+        ("iterator_drop_still_open", J::B(early_drop_open)),
+        ("iterator_created_after_shutdown", J::B(iter_after_shutdown)),
+        ("open_next_on_iterator_created_after_shutdown", J::B(open_next_late)),
+        ("other_open_calls", J::U(other_open)),
+        ("last_events", J::A(tail)),
+    ])
+}
+
 /// Run `f` on a fresh thread. Err(report) = the scenario is stuck (logical criterion) or exceeded
 /// the inconclusive cap; the report says which.
 pub fn supervise<F: FnOnce() -> Outcome + Send + 'static>(f: F) -> Result<Outcome, J> {
@@ -160,6 +226,7 @@ pub fn supervise<F: FnOnce() -> Outcome + Send + 'static>(f: F) -> Result<Outcom
                     let stacks = gdb_stacks();
                     return Err(J::obj(vec![
                         ("kind", J::s("stuck")),
+                        ("history", stuck_history()),
                         ("outstanding_calls", J::I(OUTSTANDING.load(Ordering::Relaxed))),
                         ("frozen_ms", J::U(frozen_since.elapsed().as_millis() as u64)),
                         ("stacks", J::A(stacks.into_iter().map(J::S).collect())),
